@@ -445,4 +445,280 @@ theorem parseRowD (hdr : List String) (f : Nat) : CT (parseRow hdr f) (fun u _ d
     simp only [List.nil_append] at hr
     rw [hr]; simpa using hR
 
+/-! ### statements and blocks -/
+
+/-- what one pass through `parse_stmt_block`'s `match` has consumed -/
+def SD (e : Option Kind) (u rem : List ATok) : StmtOut → Prop
+  | .pushed s => DStmt u (some s)
+  | .nothing => (u = [] ∧ rem.head? = some (.sym .Eol)) ∨ DStmt u none
+  | .closed => (∃ k, e = some k ∧ u = [.sym .End, .sym k]) ∨ (e = none ∧ u = [.sym .Eof])
+
+/-- what a block is, by kind: a nested block up to its `end <kind>`, or the body of the test -/
+def BD : Option Kind → List ATok → List Stmt → Prop
+  | some k => DNested k
+  | none => DTop
+
+theorem BD.blank {e : Option Kind} {rest : List ATok} {b : List Stmt} (h : BD e rest b) : BD e (.sym .Eol :: rest) b := by
+  cases e with
+  | some k => exact DNested.blank k rest b h
+  | none => exact DTop.blank rest b h
+
+theorem BD.stmt {e : Option Kind} {ts : List ATok} {s : Stmt} {rest : List ATok} {b : List Stmt}
+    (hs : DStmt ts (some s)) (h : BD e rest b) : BD e (ts ++ .sym .Eol :: rest) (s :: b) := by
+  cases e with
+  | some k => exact DNested.stmt k ts s rest b hs h
+  | none => exact DTop.stmt ts s rest b hs h
+
+theorem BD.decl {e : Option Kind} {ts : List ATok} {rest : List ATok} {b : List Stmt}
+    (hs : DStmt ts none) (h : BD e rest b) : BD e (ts ++ .sym .Eol :: rest) b := by
+  cases e with
+  | some k => exact DNested.decl k ts rest b hs h
+  | none => exact DTop.decl ts rest b hs h
+
+structure BlockD (hdr : List String) (f : Nat) : Prop where
+  stmt : ∀ e, CT (parseStmt hdr f e) (SD e)
+  block : ∀ e acc, CT (parseBlock hdr f e acc) (fun u _ r => ∃ b, r = acc ++ b ∧ BD e u b)
+
+theorem blockD (hdr : List String) : ∀ f, BlockD hdr f := by
+  intro f
+  induction f with
+  | zero => exact ⟨fun _ => CT.fuel _, fun _ _ => CT.fuel _⟩
+  | succ f ih =>
+    have hE := exprD f
+    refine ⟨?_, ?_⟩
+    · -- parseStmt
+      intro e
+      simp only [parseStmt]
+      refine (CT.bind (D2 := fun tk u rem out => (u ++ rem).head? = some tk → SD e u rem out) ct_peek (fun tk => ?_)).weaken ?_
+      · cases hs : startsRow tk with
+        | true =>
+          simp only [if_true]
+          refine (CT.bind (parseRowD hdr f) (fun data => CT.bind ct_getLine (fun line =>
+            CT.pure (StmtOut.pushed (.row data line))))).weaken ?_
+          rintro u rem out ⟨u1, data, u2, rfl, hR, u3, line, u4, rfl, rfl, rfl, rfl⟩ _
+          simpa [SD] using DStmt.row u1 data line hR
+        | false =>
+          simp only [Bool.false_eq_true, if_false]
+          split
+          · -- loop
+            refine (CT.bind ct_skip (fun _ => CT.bind (ct_expect .LParen) (fun _ => CT.bind ct_expectIdent
+              (D2 := fun vi u _ out => ∃ te max tb body, u = .sym .Comma :: (te ++ .sym .RParen :: .sym .Eol :: tb) ∧
+                DExpr te max ∧ DNested .Loop tb body ∧ out = StmtOut.pushed (.loop vi.1 max body)) (fun vi => ?_)))).weaken ?_
+            · obtain ⟨v, vp⟩ := vi
+              simp only
+              refine (CT.bind (ct_expect .Comma) (fun _ => CT.bind hE.expr (fun max => CT.bind (ct_expect .RParen) (fun _ =>
+                CT.bind (ct_expect .Eol) (fun _ => CT.bind (ct_modVars _) (fun _ =>
+                CT.bind (ih.block (some .Loop) []) (fun inner => CT.bind (ct_modVars _) (fun _ =>
+                CT.pure (StmtOut.pushed (.loop v max inner)))))))))).weaken ?_
+              rintro u rem out ⟨u7, _, u8, rfl, rfl, u9, max, u10, rfl, hX, u11, _, u12, rfl, rfl, u13, _, u14, rfl, rfl,
+                u15, _, u16, rfl, rfl, u17, inner, u18, rfl, ⟨b, hb, hB⟩, u19, _, u20, rfl, rfl, rfl, rfl⟩
+              simp only [List.nil_append] at hb
+              subst hb
+              exact ⟨u9, max, u17, inner, by simp, hX, hB, rfl⟩
+            · rintro u rem out ⟨u1, _, u2, rfl, ⟨t', rfl⟩, u3, _, u4, rfl, rfl, u5, vi, u6, rfl, rfl,
+                te, max, tb, body, rfl, hX, hB, rfl⟩ hd
+              have : t' = .sym .Loop := by simpa using hd
+              subst this
+              have := DStmt.loop vi.1 te max tb body hX hB
+              simpa [SD] using this
+          · -- repeat
+            refine (CT.bind ct_skip (fun _ => CT.bind (ct_expect .LParen) (fun _ => CT.bind hE.expr (fun max =>
+              CT.bind (ct_expect .RParen) (fun _ => CT.bind (ct_modVars _) (fun _ => CT.bind (parseRowD hdr f) (fun data =>
+              CT.bind (ct_modVars _) (fun _ => CT.bind ct_getLine (fun line =>
+              CT.pure (StmtOut.pushed (.loop "n" max [.row data line]))))))))))).weaken ?_
+            rintro u rem out ⟨u1, _, u2, rfl, ⟨t', rfl⟩, u3, _, u4, rfl, rfl, u5, max, u6, rfl, hX, u7, _, u8, rfl, rfl,
+              u9, _, u10, rfl, rfl, u11, data, u12, rfl, hR, u13, _, u14, rfl, rfl, u15, line, u16, rfl, rfl, rfl, rfl⟩ hd
+            have : t' = .sym .Repeat := by simpa using hd
+            subst this
+            have := DStmt.repeat u5 max u11 data line hX hR
+            simpa [SD] using this
+          · -- let
+            refine (CT.bind ct_skip (fun _ => CT.bind ct_expectIdent
+              (D2 := fun vi u _ out => ∃ te ex, u = .sym .Equal :: (te ++ [.sym .Semi]) ∧ DExpr te ex ∧
+                out = StmtOut.pushed (.letS vi.1 ex)) (fun vi => ?_))).weaken ?_
+            · obtain ⟨v, vp⟩ := vi
+              simp only
+              refine (CT.bind (ct_expect .Equal) (fun _ => CT.bind hE.expr (fun ex => CT.bind (ct_expect .Semi) (fun _ =>
+                CT.bind (ct_modVars _) (fun _ => CT.pure (StmtOut.pushed (.letS v ex))))))).weaken ?_
+              rintro u rem out ⟨u5, _, u6, rfl, rfl, u7, ex, u8, rfl, hX, u9, _, u10, rfl, rfl, u11, _, u12, rfl, rfl, rfl, rfl⟩
+              exact ⟨u7, ex, by simp, hX, rfl⟩
+            · rintro u rem out ⟨u1, _, u2, rfl, ⟨t', rfl⟩, u3, vi, u4, rfl, rfl, te, ex, rfl, hX, rfl⟩ hd
+              have : t' = .sym .Let := by simpa using hd
+              subst this
+              have := DStmt.letS vi.1 te ex hX
+              simpa [SD] using this
+          · -- resetRandom
+            refine (CT.bind ct_skip (fun _ => CT.bind (ct_expect .Semi) (fun _ =>
+              CT.pure (StmtOut.pushed .resetRandom)))).weaken ?_
+            rintro u rem out ⟨u1, _, u2, rfl, ⟨t', rfl⟩, u3, _, u4, rfl, rfl, rfl, rfl⟩ hd
+            have : t' = .sym .ResetRandom := by simpa using hd
+            subst this
+            simpa [SD] using DStmt.reset
+          · -- while
+            refine (CT.bind ct_skip (fun _ => CT.bind (ct_expect .LParen) (fun _ => CT.bind hE.expr (fun cond =>
+              CT.bind (ct_expect .RParen) (fun _ => CT.bind (ct_expect .Eol) (fun _ =>
+              CT.bind (ih.block (some .While) []) (fun inner =>
+              CT.pure (StmtOut.pushed (.while cond inner))))))))).weaken ?_
+            rintro u rem out ⟨u1, _, u2, rfl, ⟨t', rfl⟩, u3, _, u4, rfl, rfl, u5, cond, u6, rfl, hX, u7, _, u8, rfl, rfl,
+              u9, _, u10, rfl, rfl, u11, inner, u12, rfl, ⟨b, hb, hB⟩, rfl, rfl⟩ hd
+            have : t' = .sym .While := by simpa using hd
+            subst this
+            simp only [List.nil_append] at hb
+            subst hb
+            have := DStmt.while u5 cond u11 inner hX hB
+            simpa [SD] using this
+          · -- declare
+            refine (CT.bind ct_peekPos (fun start => CT.bind ct_skip (fun _ => CT.bind ct_expectIdent
+              (D2 := fun vi u _ out => ∃ te ex, u = .sym .Equal :: (te ++ [.sym .Semi]) ∧ DExpr te ex ∧
+                out = StmtOut.nothing) (fun vi => ?_)))).weaken ?_
+            · obtain ⟨v, vp⟩ := vi
+              simp only
+              refine (CT.bind (ct_expect .Equal) (fun _ => CT.bind ct_getVars (fun saved => CT.bind (ct_modVars _) (fun _ =>
+                CT.bind hE.expr (fun ex => CT.bind (ct_modVars _) (fun _ => CT.bind (ct_expect .Semi) (fun _ =>
+                CT.bind ct_peekPos (fun stop => ct_declareVirt v start stop ex)))))))).weaken ?_
+              rintro u rem out ⟨u5, _, u6, rfl, rfl, u7, _, u8, rfl, rfl, u9, _, u10, rfl, rfl, u11, ex, u12, rfl, hX,
+                u13, _, u14, rfl, rfl, u15, _, u16, rfl, rfl, u17, _, u18, rfl, rfl, rfl, rfl⟩
+              exact ⟨u11, ex, by simp, hX, rfl⟩
+            · rintro u rem out ⟨u0, _, u0', rfl, rfl, u1, _, u2, rfl, ⟨t', rfl⟩, u3, vi, u4, rfl, rfl, te, ex, rfl, hX, rfl⟩ hd
+              have : t' = .sym .Declare := by simpa using hd
+              subst this
+              have := DStmt.declare vi.1 te ex hX
+              simp only [SD]
+              right
+              simpa using this
+          · -- end
+            cases e with
+            | some k =>
+              simp only
+              refine (CT.bind ct_skip (fun _ => CT.bind (ct_expect k) (fun _ => CT.pure StmtOut.closed))).weaken ?_
+              rintro u rem out ⟨u1, _, u2, rfl, ⟨t', rfl⟩, u3, _, u4, rfl, rfl, rfl, rfl⟩ hd
+              have : t' = .sym .End := by simpa using hd
+              subst this
+              simp [SD]
+            | none => simp only; exact ct_getFail _ _
+          · -- Eof
+            refine (CT.bind ct_curPos (fun i => CT.bind ct_get
+              (D2 := fun _ u rem out => u = [] ∧ e = none ∧ out = StmtOut.closed) (fun t' => ?_))).weaken ?_
+            · cases e with
+              | some k => simp only [Option.isSome_some, if_true]; exact CT.fail _ _ _
+              | none =>
+                simp only [Option.isSome_none, Bool.false_eq_true, if_false]
+                refine (CT.pure _).weaken ?_
+                rintro u rem out ⟨rfl, rfl⟩
+                exact ⟨rfl, by simp, rfl⟩
+            · rintro u rem out ⟨u1, i, u2, rfl, rfl, u3, t', u4, rfl, rfl, rfl, he, rfl⟩ hd
+              have : t' = .sym .Eof := by simpa using hd
+              subst this
+              simp [SD, he]
+          · -- Eol
+            refine (CT.pure _).weaken ?_
+            rintro u rem out ⟨rfl, rfl⟩ hd
+            simp only [SD]
+            left
+            exact ⟨by simp, by simpa using hd⟩
+          · -- other fixed spellings
+            split
+            · exact ct_getFail _ _
+            · exact ct_getFail _ _
+          · exact ct_getFail _ _
+      · rintro u rem out ⟨u1, tk, u2, rfl, ⟨rfl, hd⟩, h2⟩
+        exact h2 (by simpa using hd)
+    · -- parseBlock
+      intro e acc
+      simp only [parseBlock]
+      have cont : ∀ (b0 : List Stmt),
+          CT (do
+              if (← atTok .Eof) then
+                if e.isSome then do
+                  let i ← curPos
+                  let _ ← getTok
+                  failP "UnexpectedEof" [.tok i]
+                else pure b0
+              else if (← atTok .Eol) then do
+                skipTok
+                parseBlock hdr f e b0
+              else do
+                let i ← curPos
+                let _ ← getTok
+                failP "ExpectedNewLine" [.tok i])
+            (fun u rem r => (e = none ∧ u = [] ∧ r = b0 ∧ rem.head? = some (.sym .Eof)) ∨
+              ∃ rest b, u = .sym .Eol :: rest ∧ r = b0 ++ b ∧ BD e rest b) := by
+        intro b0
+        refine (CT.bind (ct_at .Eof) (D2 := fun x u _ r => (x = true ∧ e = none ∧ u = [] ∧ r = b0) ∨
+          ∃ rest b, u = .sym .Eol :: rest ∧ r = b0 ++ b ∧ BD e rest b) (fun x => ?_)).weaken ?_
+        · cases x with
+          | true =>
+            simp only [if_true]
+            cases e with
+            | some k => simp only [Option.isSome_some, if_true]; exact ct_getFail _ _
+            | none =>
+              simp only [Option.isSome_none, Bool.false_eq_true, if_false]
+              refine (CT.pure _).weaken ?_
+              rintro u rem r ⟨rfl, rfl⟩
+              exact Or.inl ⟨by simp, by simp, rfl, rfl⟩
+          | false =>
+            simp only [Bool.false_eq_true, if_false]
+            refine (CT.bind (ct_at .Eol) (D2 := fun y u _ r => y = true ∧
+              ∃ t rest b, u = t :: rest ∧ r = b0 ++ b ∧ BD e rest b) (fun y => ?_)).weaken ?_
+            · cases y with
+              | true =>
+                simp only [if_true]
+                refine (CT.bind ct_skip (fun _ => ih.block e b0)).weaken ?_
+                rintro u rem r ⟨u1, _, u2, rfl, ⟨t, rfl⟩, b, rfl, hB⟩
+                exact ⟨by simp, t, u2, b, by simp, rfl, hB⟩
+              | false =>
+                simp only [Bool.false_eq_true, if_false]
+                exact ct_getFail _ _
+            · rintro u rem r ⟨u1, y, u2, rfl, ⟨rfl, hat⟩, hy, t, rest, b, rfl, rfl, hB⟩
+              have ht : t = .sym .Eol := by
+                have := hat hy
+                simpa using this
+              subst ht
+              exact Or.inr ⟨rest, b, by simp, rfl, hB⟩
+        · rintro u rem r ⟨u1, x, u2, rfl, ⟨rfl, hat⟩, h⟩
+          rcases h with ⟨hx, he, rfl, hr⟩ | h
+          · exact Or.inl ⟨he, rfl, hr, by simpa using hat hx⟩
+          · exact Or.inr (by simpa using h)
+      refine (CT.bind (ih.stmt e) (D2 := fun out u rem r =>
+          match out with
+          | .closed => u = [] ∧ r = acc
+          | .pushed s => (e = none ∧ u = [] ∧ r = acc ++ [s] ∧ rem.head? = some (.sym .Eof)) ∨
+              ∃ rest b, u = .sym .Eol :: rest ∧ r = acc ++ [s] ++ b ∧ BD e rest b
+          | .nothing => (e = none ∧ u = [] ∧ r = acc ∧ rem.head? = some (.sym .Eof)) ∨
+              ∃ rest b, u = .sym .Eol :: rest ∧ r = acc ++ b ∧ BD e rest b)
+        (fun out => ?_)).weaken ?_
+      · cases out with
+        | closed => exact CT.pure acc
+        | pushed s => exact cont (acc ++ [s])
+        | nothing => exact cont acc
+      · rintro u rem r ⟨u1, out, u2, rfl, hS, hC⟩
+        cases out with
+        | closed =>
+          obtain ⟨rfl, rfl⟩ := hC
+          refine ⟨[], by simp, ?_⟩
+          simp only [SD] at hS
+          rcases hS with ⟨k, rfl, hu⟩ | ⟨rfl, hu⟩
+          · simp only [List.append_nil, hu]; exact DNested.close k
+          · simp only [List.append_nil, hu]; exact DTop.eof
+        | pushed s =>
+          simp only [SD] at hS
+          rcases hC with ⟨rfl, rfl, rfl, _⟩ | ⟨rest, b, rfl, rfl, hB⟩
+          · refine ⟨[s], rfl, ?_⟩
+            simp only [List.append_nil]
+            exact DTop.lastStmt u1 s hS
+          · exact ⟨s :: b, by simp, BD.stmt hS hB⟩
+        | nothing =>
+          simp only [SD] at hS
+          rcases hC with ⟨rfl, rfl, rfl, hEof⟩ | ⟨rest, b, rfl, rfl, hB⟩
+          · rcases hS with ⟨rfl, hd⟩ | hS
+            · -- at an `Eol` the test for `Eof` is false
+              simp only [List.nil_append] at hd
+              rw [hd] at hEof; cases hEof
+            · refine ⟨[], by simp, ?_⟩
+              simp only [List.append_nil]
+              exact DTop.lastDecl u1 hS
+          · rcases hS with ⟨rfl, _⟩ | hS
+            · exact ⟨b, rfl, by simpa using BD.blank hB⟩
+            · exact ⟨b, rfl, BD.decl hS hB⟩
+
 end Dtr
